@@ -90,7 +90,7 @@ TraceNext ==
                 \cup (IF (e.outcome = "error") # (st'.err # NoErr) THEN {"drift_outcome"} ELSE {})
                 \* refusals required by the properties: an ill-formed model must not produce equations
                 \cup (IF ~bp'.wellformed /\ e.outcome # "error"
-                      THEN (IF bp'.name \in {"NOEXT1", "NOEXT2"} THEN {"C07_RefusedWithoutExternal", "C11_RejectsInvalid"}
+                      THEN (IF bp'.name \in {"NOEXT1", "NOEXT2", "NOEXT3"} THEN {"C07_RefusedWithoutExternal", "C11_RejectsInvalid"}
                             ELSE {"C11_RejectsInvalid"})
                       ELSE {})
                 \cup (IF bp'.wellformed /\ e.outcome = "error" THEN {"drift_wellformed_rejected"} ELSE {})
